@@ -601,6 +601,23 @@ fn c04(
                 format!("handler of cancelled request id {} (payload {}) is still alive at quiescence", i.id, i.p),
             );
         }
+        // (a') the whole of the request's work ends, not only the service function: an `execute`
+        // future that had finished its handler and was parked handing the response over (response
+        // buffer full) is ended by the cancellation too - at the next quiescent point it is gone
+        // (seeded change C04m moved the hand-over out of the abortable scope)
+        if cfg.route == Route::Execute && i.hstart.is_some() && i.app_dropped.is_none() {
+            let next_q = [f.q0.as_ref().map(|q| q.0), f.q1.as_ref().map(|q| q.0)].into_iter().flatten().filter(|q| *q > cend).min();
+            if let Some(q) = next_q {
+                if i.exec_done.map(|d| d > q).unwrap_or(true) && i.hdrop.map(|d| d.0 > q).unwrap_or(true) {
+                    v(
+                        vs,
+                        "C04-a-not-ended",
+                        cfg,
+                        format!("the work for cancelled request id {} (payload {}) is still alive at quiescence: its execute future has neither completed nor been dropped{}", i.id, i.p, if i.hfinish.is_some() { " (its handler had finished; it is parked handing over a response nobody wants)" } else { "" }),
+                    );
+                }
+            }
+        }
         // (b) no response afterwards
         if i.resp.iter().any(|r| *r > cend) {
             v(
@@ -1358,6 +1375,7 @@ fn base(reqs: Vec<ReqCfg>, limit: Option<usize>, rb: usize, fl: Flavour, cap: us
         via_serde: false,
         start_age_ms: 0,
         limit_via_incoming: false,
+        via_key_limit: false,
     }
 }
 
@@ -1923,6 +1941,24 @@ pub fn configs(prop: SProp, tier: Tier) -> Vec<SCfg> {
                                 out.push(base(reqs, limit, rb, fl, cap, alpha));
                             }
                         }
+                    }
+                }
+            }
+        }
+    }
+    if prop == SProp::C14 {
+        // the same sinks behind the per-key channel limiter's wrapper (`max_channels_per_key`),
+        // with and without a request limit on top (seeded change C14m made the wrapper's
+        // poll_ready answer with its flush)
+        for (fl, cap) in [(Flavour::Coupled, 1usize), (Flavour::Indep, 1), (Flavour::Indep, 2), (Flavour::FlushFrees, 1)] {
+            for limit in [None, Some(1)] {
+                for n in 2..=3usize {
+                    for rb in [1usize, 2] {
+                        let reqs = (0..n).map(|i| ReqCfg::simple(i as u64, true)).collect();
+                        let mut c = base(reqs, limit, rb, fl, cap, S_CANCEL | S_FINISH | S_DRAIN);
+                        c.route = Route::Execute;
+                        c.via_key_limit = true;
+                        out.push(c);
                     }
                 }
             }
